@@ -161,6 +161,6 @@ def eval_case(case, kind):
 def parts(tier):
     t = tier == 'thorough'
     return [
-        Part('contig', lambda c: eval_case(c, 'contig'), strategy=lambda: strategy('contig'), examples=8000 if t else 500),
-        Part('tiling', lambda c: eval_case(c, 'tiling'), strategy=lambda: strategy('tiling'), examples=8000 if t else 500),
+        Part('contig', lambda c: eval_case(c, 'contig'), strategy=lambda: strategy('contig'), examples=16000 if t else 500),
+        Part('tiling', lambda c: eval_case(c, 'tiling'), strategy=lambda: strategy('tiling'), examples=16000 if t else 500),
     ]
